@@ -2,7 +2,7 @@ import PsyVerif.Model.MiniFIO
 import PsyVerif.Model.Inline
 /-! Driver for C07.
 `(inline <call>)` → `(ok <stmt> <legal> <wellformed> <stable> <noclash>)` | `(refuse <reason>)`
-`(run <cstmt> (<bindings>) (<queries>))` → `((values after the program with CALLs) (values after inlineAll))`
+`(run <cstmt> (<bindings>) (<queries>))` → `((values after the program with CALLs, callee locals in `farFrame`) (values after inlineAll))`
 call   ::= `(call (localNames) (outerNames) ((name rank lo1 lo2) ...) (locals) (statics) <stmt> (<actual> ...))`
 actual ::= `(var y)` `(elem1 a e)` `(elem2 a e e)` `(expr e)` `(sec1 a st u)` `(sec2 a st1 st2 u)` `(col a st1 j u)` `(row a i st2 u)`
 cstmt  ::= `(base <stmt>)` | <call> | `(cseq c ...)` | `(cite e c c)` | `(cloop v lo hi st c)` -/
@@ -95,7 +95,7 @@ def handle (s : Sexp) : String :=
     | none => "bad-prog"
     | some prog =>
       let σ := storeOf (parseBindings init)
-      answer (execC renOf prog σ) (exec (inlineAll prog) σ) (qs.items.filterMap parseLoc)
+      answer (execC farFrame prog σ) (exec (inlineAll prog) σ) (qs.items.filterMap parseLoc)
   | _ => "bad-op"
 
 def main : IO Unit := run handle
